@@ -4,6 +4,7 @@ package c16
 import (
 	"encoding/json"
 	"fmt"
+	"sort"
 	"strings"
 	"testing"
 
@@ -21,6 +22,15 @@ type Case struct {
 	Src     string          `json:"src"` // informational
 	Compact bool            `json:"compact"`
 	Prog    json.RawMessage `json:"prog"`
+	Many    int             `json:"many,omitempty"` // length of the data array "many" (0: absent)
+}
+
+// LitCase is a program the mini-AST cannot spell (a call of a call result, of
+// an indexed element, of a function literal); its expectation is derived by
+// hand from the statement.
+type LitCase struct {
+	Src  string `json:"src"`
+	Want string `json:"want"`
 }
 
 // caller-side variables deliberately named like the parameters (a, b, c, d)
@@ -29,23 +39,61 @@ func data() map[string]interface{} {
 		"a": "A", "b": "B", "c": "C", "d": "D",
 		"i0": 0, "i1": 1, "i2": 2, "sx": "x", "sy": "y", "t": true, "f": false,
 		"two": []interface{}{1, 2},
+		// a Go struct value: only the hand-written cases (memberCases) mention it
+		"user": person{Name: "ann", Kid: &person{Name: "kid"}},
 	}
 }
 
-var helpers = map[string]model.Helper{
-	"id": func(a []interface{}) (interface{}, error) { return a[0], nil },
+type person struct {
+	Name string
+	Kid  *person
+}
+
+func (p person) Hello() string { return "hi " + p.Name }
+
+func dataFor(many int) map[string]interface{} {
+	d := data()
+	if many > 0 {
+		arr := make([]interface{}, many)
+		for i := range arr {
+			arr[i] = i
+		}
+		d["many"] = arr
+	}
+	return d
+}
+
+// mkHelpers: fresh for every evaluation (the reference and the render each get
+// their own). id returns its argument; tick(k) counts its calls per key k and
+// returns the count, so that how often an argument expression, a body
+// statement or dead code was evaluated shows in the output (keys are unique
+// per call site, so the order of evaluation of two arguments does not).
+func mkHelpers() map[string]model.Helper {
+	counts := map[string]int{}
+	return map[string]model.Helper{
+		"id": func(a []interface{}) (interface{}, error) { return a[0], nil },
+		"tick": func(a []interface{}) (interface{}, error) {
+			k := fmt.Sprint(a[0])
+			counts[k]++
+			return counts[k], nil
+		},
+	}
 }
 
 func run(r *vk.Run, prog []model.Node, compact bool, class string) *vk.Fail {
+	return runMany(r, prog, compact, 0, class)
+}
+
+func runMany(r *vk.Run, prog []model.Node, compact bool, many int, class string) *vk.Fail {
 	src := model.Printer{Compact: compact}.Nodes(prog)
-	c := Case{Src: src, Compact: compact, Prog: model.Encode(prog)}
+	c := Case{Src: src, Compact: compact, Prog: model.Encode(prog), Many: many}
 	defer r.Watch("fn", c)()
-	want := model.Run(prog, data(), helpers)
+	want := model.Run(prog, dataFor(many), mkHelpers())
 	if want.Unspec != "" {
 		r.Exclude("unspecified")
 		return nil
 	}
-	res := vk.Safe(func() (string, error) { return plush.Render(src, model.Context(data(), helpers)) })
+	res := vk.Safe(func() (string, error) { return plush.Render(src, model.Context(dataFor(many), mkHelpers())) })
 	r.Count(src, class)
 	r.Sample(func() interface{} {
 		return map[string]interface{}{"template": src, "expected": want.Out, "expected_error": want.Err}
@@ -57,6 +105,7 @@ func run(r *vk.Run, prog []model.Node, compact bool, class string) *vk.Fail {
 		return fail("%s", res)
 	}
 	if want.Err != "" {
+		r.Class("expected-render-fails:" + strings.SplitN(strings.SplitN(class, "/", 2)[0], ":", 2)[0])
 		if res.Err == nil {
 			return fail("reference says error (%s), render gave %q", want.Err, res.Out)
 		}
@@ -67,6 +116,23 @@ func run(r *vk.Run, prog []model.Node, compact bool, class string) *vk.Fail {
 	}
 	if !match.SameText(res.Out, want.Out) {
 		return fail("output %q, reference says %q", res.Out, want.Out)
+	}
+	return nil
+}
+
+func runLit(r *vk.Run, c LitCase, class string) *vk.Fail {
+	defer r.Watch("lit", c)()
+	res := vk.Safe(func() (string, error) { return plush.Render(c.Src, model.Context(data(), mkHelpers())) })
+	r.Count(c.Src, class)
+	r.Sample(func() interface{} { return map[string]interface{}{"template": c.Src, "expected": c.Want} })
+	if res.Panicked() {
+		return &vk.Fail{Kind: "lit", Case: c, Msg: c.Src + ": " + res.String()}
+	}
+	if res.Err != nil {
+		return &vk.Fail{Kind: "lit", Case: c, Msg: fmt.Sprintf("%s: render failed: %v; the statement gives %q", c.Src, res.Err, c.Want)}
+	}
+	if !match.SameText(res.Out, c.Want) {
+		return &vk.Fail{Kind: "lit", Case: c, Msg: fmt.Sprintf("%s: output %q, the statement gives %q", c.Src, res.Out, c.Want)}
 	}
 	return nil
 }
@@ -325,6 +391,11 @@ func (g *fnGen) sequence() ([]model.Node, string) {
 			model.Code{S: model.LetS{Name: "fst", X: model.Call{Fn: "h", Args: varsOf(ps)}}},
 			model.Code{S: model.ReturnS{X: model.Bin{Op: "+", L: model.Bin{Op: "+", L: model.Var{Name: "fst"}, R: model.Lit{V: "&"}}, R: model.Call{Fn: "k", Args: varsOf(ps)}}}}}}}},
 	)
+	// hb(<helper name>, params...) calls a PARAMETER named like a built-in helper (or like the Go helper of this check)
+	hname := rapid.SampledFrom([]string{"len", "raw", "capitalize", "id", "partial"}).Draw(t, "helpername")
+	prog = append(prog, model.Code{S: model.LetS{Name: "hb", X: model.FnLit{Params: append([]string{hname}, ps...), Body: []model.Node{
+		model.Code{S: model.IfS{If: &model.If{Cond: model.Lit{V: true}, Then: []model.Node{model.Code{S: model.ReturnS{X: model.Call{Fn: hname, Args: varsOf(ps)}}}}}}},
+		model.Code{S: model.ReturnS{X: model.Lit{V: "unreachable"}}}}}}})
 	args := func() []model.Expr {
 		var out []model.Expr
 		for _, f := range g.fams {
@@ -337,8 +408,8 @@ func (g *fnGen) sequence() ([]model.Node, string) {
 	aliased := false
 	for i, n := 0, rapid.IntRange(2, 5).Draw(t, "ncalls"); i < n; i++ {
 		prog = append(prog, model.Text{S: "["})
-		k := rapid.IntRange(0, 6).Draw(t, "how")
-		if k >= 5 && !aliased {
+		k := rapid.IntRange(0, 7).Draw(t, "how")
+		if (k == 5 || k == 6) && !aliased {
 			k = 4
 		}
 		switch k {
@@ -364,11 +435,14 @@ func (g *fnGen) sequence() ([]model.Node, string) {
 		case 6:
 			class["alias-again"] = true
 			prog = append(prog, model.Emit{X: model.Call{Fn: "al", Args: args()}})
+		case 7:
+			class["helper-name"] = true
+			prog = append(prog, model.Emit{X: model.Call{Fn: "hb", Args: append([]model.Expr{fv()}, args()...)}})
 		}
 		prog = append(prog, model.Text{S: "]"})
 	}
 	var cs []string
-	for _, c := range []string{"direct", "ap", "shadow", "two", "alias-let", "alias-assign", "alias-again"} {
+	for _, c := range []string{"direct", "ap", "shadow", "two", "helper-name", "alias-let", "alias-assign", "alias-again"} {
 		if class[c] {
 			cs = append(cs, c)
 		}
@@ -382,6 +456,663 @@ func varsOf(names []string) []model.Expr {
 		out = append(out, model.Var{Name: n})
 	}
 	return out
+}
+
+// ---- richer bodies and callers (R3) --------------------------------------------------------
+//
+// Bodies stay CLOSED: they read their parameters, what they let-bind themselves, the Go helpers, and functions
+// defined at the top level BEFORE them (so the call graph has no cycles and no name a body reads is ever bound in a
+// scope between the top level and the body). A name a body let-binds only on some paths ("sensor") is read only
+// where an unknown identifier is tolerated, and no other scope ever binds that name.
+
+const famAny fam = 3 // a value whose kind is not known to the generator: only tested for truth
+
+type rvar struct {
+	name string
+	fam  fam
+}
+
+type rfn struct {
+	name   string
+	params []rvar
+}
+
+type richGen struct {
+	t      *rapid.T
+	ret    int
+	nvar   int
+	ntick  int
+	fns    []rfn
+	locals map[string]bool // every name some body let-binds (never bound by the caller unless listed in callerVars)
+	ticks  []string
+	noID   bool // a parameter of the function being generated is called "id": the body must not use the Go helper
+	nest   int  // depth of calls inside arguments at the caller's level
+	narrow bool // the body being generated nests deeply (up to 12 blocks) but has one nested branch per level
+	class  map[string]bool
+}
+
+func (g *richGen) lit(f fam) model.Expr {
+	switch f {
+	case famInt:
+		return model.Lit{V: rapid.IntRange(0, 2).Draw(g.t, "ilit")}
+	case famBool:
+		return model.Lit{V: rapid.Bool().Draw(g.t, "blit")}
+	}
+	return model.Lit{V: rapid.SampledFrom([]string{"x", "y", "A", "B", ""}).Draw(g.t, "slit")}
+}
+
+func (g *richGen) tick() model.Expr {
+	k := fmt.Sprintf("k%d", g.ntick)
+	g.ntick++
+	g.ticks = append(g.ticks, k)
+	g.class["tick"] = true
+	return model.Call{Fn: "tick", Args: []model.Expr{model.Lit{V: k}}}
+}
+
+func (g *richGen) cond(vars []rvar, lower []rfn) model.Expr {
+	t := g.t
+	if len(lower) > 0 && rapid.IntRange(0, 5).Draw(t, "callcond") == 0 {
+		f := lower[rapid.IntRange(0, len(lower)-1).Draw(t, "cf")]
+		c := g.callOf(f, vars, nil)
+		g.class["call-in-condition"] = true
+		if rapid.Bool().Draw(t, "plain") {
+			return c
+		}
+		return model.Bin{Op: rapid.SampledFrom([]string{"==", "!="}).Draw(t, "eq"), L: c, R: model.Lit{V: fmt.Sprintf("r%d", rapid.IntRange(1, 6).Draw(t, "rk"))}}
+	}
+	if len(vars) == 0 {
+		return model.Lit{V: rapid.Bool().Draw(t, "c")}
+	}
+	pv := vars[rapid.IntRange(0, len(vars)-1).Draw(t, "var")]
+	p := model.Var{Name: pv.name}
+	if pv.fam == famAny {
+		if rapid.Bool().Draw(t, "neg") {
+			return model.Not{X: p}
+		}
+		return p
+	}
+	switch k := rapid.IntRange(0, 7).Draw(t, "ck"); {
+	case k == 0:
+		return p
+	case k == 1:
+		return model.Not{X: p}
+	case k == 2 && pv.fam == famInt:
+		return model.Bin{Op: rapid.SampledFrom([]string{"<", ">", "<=", ">="}).Draw(t, "cmp"), L: p, R: g.lit(pv.fam)}
+	case k == 3:
+		for _, q := range vars {
+			if q.name != pv.name && q.fam == pv.fam {
+				return model.Bin{Op: rapid.SampledFrom([]string{"==", "!="}).Draw(t, "eq"), L: p, R: model.Var{Name: q.name}}
+			}
+		}
+	case k == 4:
+		return model.Bin{Op: "!=", L: p, R: g.lit(pv.fam)}
+	case k == 5:
+		return model.Bin{Op: rapid.SampledFrom([]string{"&&", "||"}).Draw(t, "lop"), L: p, R: model.Bin{Op: "==", L: p, R: g.lit(pv.fam)}}
+	case k == 6:
+		return model.Bin{Op: "==", L: p, R: model.Lit{V: nil}}
+	}
+	return model.Bin{Op: "==", L: p, R: g.lit(pv.fam)}
+}
+
+// argFrom: an argument of family f built from the variables readable at the call (inside a body) or, when vars is
+// nil, from the caller's data.
+func (g *richGen) argFrom(f fam, vars []rvar, extra model.Expr) model.Expr {
+	t := g.t
+	if extra != nil && rapid.IntRange(0, 2).Draw(t, "loopvar") == 0 {
+		return extra
+	}
+	if vars != nil {
+		var same []rvar
+		for _, v := range vars {
+			if v.fam == f {
+				same = append(same, v)
+			}
+		}
+		if len(same) > 0 && rapid.IntRange(0, 3).Draw(t, "fromvar") > 0 {
+			return model.Var{Name: same[rapid.IntRange(0, len(same)-1).Draw(t, "av")].name}
+		}
+		if rapid.IntRange(0, 7).Draw(t, "nilarg") == 0 {
+			return model.Lit{V: nil}
+		}
+		return g.lit(f)
+	}
+	if g.nest < 2 && len(g.fns) > 0 && rapid.IntRange(0, 11).Draw(t, "callarg") == 0 {
+		// the result of a call of any defined function (another one, or the same) as the argument
+		g.class["call-as-argument"] = true
+		g.nest++
+		c := g.callOf(g.fns[rapid.IntRange(0, len(g.fns)-1).Draw(t, "argfn")], nil, extra)
+		g.nest--
+		return c
+	}
+	switch k := rapid.IntRange(0, 15).Draw(t, "argkind"); {
+	case k == 0:
+		if rapid.IntRange(0, 9).Draw(t, "unknown") == 0 {
+			// an argument that cannot be evaluated fails the call
+			g.class["unknown-argument"] = true
+			return model.Var{Name: "nope"}
+		}
+		return model.Lit{V: nil}
+	case k <= 3:
+		return g.lit(f)
+	case k <= 9: // composite expressions over the caller's variables, namesakes of the parameters included
+		g.class["composite-argument"] = true
+		ns := func(l string) model.Expr { return model.Var{Name: rapid.SampledFrom(paramNames).Draw(t, l)} }
+		switch f {
+		case famStr:
+			switch rapid.IntRange(0, 5).Draw(t, "sc") {
+			case 0:
+				return model.Bin{Op: "+", L: ns("l"), R: ns("r")}
+			case 1:
+				if !g.noID {
+					return model.Call{Fn: "id", Args: []model.Expr{ns("x")}}
+				}
+			case 2:
+				return model.Idx{X: model.Arr{Els: []model.Expr{ns("e0"), ns("e1")}}, I: model.Var{Name: rapid.SampledFrom([]string{"i0", "i1"}).Draw(t, "ix")}}
+			case 3:
+				return model.Idx{X: model.Hash{KVs: []model.KV{{K: "k", V: ns("hv")}}}, I: model.Lit{V: "k"}}
+			case 4:
+				return model.Bin{Op: "+", L: ns("l"), R: model.Lit{V: "x"}}
+			}
+			return model.Paren{X: ns("p")}
+		case famInt:
+			switch rapid.IntRange(0, 3).Draw(t, "ic") {
+			case 0:
+				return model.Bin{Op: rapid.SampledFrom([]string{"+", "*", "-"}).Draw(t, "iop"), L: model.Var{Name: "i2"}, R: model.Var{Name: rapid.SampledFrom([]string{"i0", "i1", "i2"}).Draw(t, "iv")}}
+			case 1:
+				return model.Idx{X: model.Var{Name: "two"}, I: model.Var{Name: rapid.SampledFrom([]string{"i0", "i1"}).Draw(t, "ix")}}
+			case 2:
+				return g.tick()
+			}
+			return model.Idx{X: model.Arr{Els: []model.Expr{model.Lit{V: 0}, model.Lit{V: 1}, model.Lit{V: 2}}}, I: model.Var{Name: rapid.SampledFrom([]string{"i0", "i1", "i2"}).Draw(t, "ix")}}
+		default:
+			switch rapid.IntRange(0, 3).Draw(t, "bc") {
+			case 0:
+				return model.Not{X: ns("n")}
+			case 1:
+				return model.Bin{Op: "==", L: ns("l"), R: model.Lit{V: rapid.SampledFrom([]string{"A", "B"}).Draw(t, "sl")}}
+			case 2:
+				return model.Bin{Op: rapid.SampledFrom([]string{"&&", "||"}).Draw(t, "lop"), L: model.Var{Name: rapid.SampledFrom([]string{"t", "f"}).Draw(t, "bv")}, R: ns("r")}
+			}
+			return model.Bin{Op: "<", L: model.Var{Name: "i1"}, R: model.Var{Name: rapid.SampledFrom([]string{"i0", "i1", "i2"}).Draw(t, "iv")}}
+		}
+	}
+	switch f {
+	case famInt:
+		return model.Var{Name: rapid.SampledFrom([]string{"i0", "i1", "i2"}).Draw(t, "iv")}
+	case famBool:
+		return model.Var{Name: rapid.SampledFrom([]string{"t", "f"}).Draw(t, "bv")}
+	}
+	return model.Var{Name: rapid.SampledFrom([]string{"a", "b", "c", "d", "sx", "sy"}).Draw(t, "sv")}
+}
+
+func (g *richGen) callOf(f rfn, vars []rvar, extra model.Expr) model.Expr {
+	var args []model.Expr
+	for _, p := range f.params {
+		args = append(args, g.argFrom(p.fam, vars, extra))
+	}
+	return model.Call{Fn: f.name, Args: args}
+}
+
+func (g *richGen) fresh(prefix string) string {
+	g.nvar++
+	n := fmt.Sprintf("%s%d", prefix, g.nvar)
+	g.locals[n] = true
+	return n
+}
+
+func (g *richGen) retStmts(vars []rvar) []model.Node {
+	t := g.t
+	g.ret++
+	label := model.Lit{V: fmt.Sprintf("r%d", g.ret)}
+	var x model.Expr = label
+	switch k := rapid.IntRange(0, 13).Draw(t, "retkind"); {
+	case k == 0 && len(vars) > 0:
+		g.class["return-variable"] = true
+		x = model.Var{Name: vars[rapid.IntRange(0, len(vars)-1).Draw(t, "rv")].name}
+	case k == 1:
+		g.class["return-nil"] = true
+		x = model.Lit{V: nil}
+	case k == 2 && len(vars) > 0:
+		g.class["return-array"] = true
+		x = model.Arr{Els: []model.Expr{label, model.Var{Name: vars[rapid.IntRange(0, len(vars)-1).Draw(t, "rv")].name}}}
+	case k == 3:
+		for _, v := range vars {
+			if v.fam == famStr {
+				g.class["return-computed"] = true
+				x = model.Bin{Op: "+", L: model.Bin{Op: "+", L: label, R: model.Lit{V: ":"}}, R: model.Var{Name: v.name}}
+				break
+			}
+		}
+	case k == 4:
+		g.class["return-false-or-empty"] = true
+		x = model.Lit{V: rapid.SampledFrom([]interface{}{false, "", 0}).Draw(t, "falsy")}
+	}
+	out := []model.Node{model.Code{S: model.ReturnS{X: x}}}
+	// dead code: never evaluated, whatever it is
+	switch rapid.IntRange(0, 11).Draw(t, "dead") {
+	case 0:
+		g.ret++
+		out = append(out, model.Code{S: model.ReturnS{X: model.Lit{V: fmt.Sprintf("r%d", g.ret)}}})
+	case 1:
+		g.class["dead-code-that-would-fail"] = true
+		out = append(out, model.Code{S: model.ExprS{X: model.Call{Fn: "boom", Args: []model.Expr{model.Lit{V: 1}}}}})
+	case 2:
+		g.class["dead-code-that-would-fail"] = true
+		out = append(out, model.Code{S: model.LetS{Name: g.fresh("z"), X: model.Bin{Op: "/", L: model.Lit{V: 1}, R: model.Lit{V: 0}}}})
+	case 3:
+		g.class["dead-code-with-effect"] = true
+		out = append(out, model.Code{S: model.ExprS{X: model.Call{Fn: "tick", Args: []model.Expr{model.Lit{V: "dead"}}}}})
+	case 4:
+		out = append(out, model.Text{S: "(dead text)"}, model.Emit{X: model.Var{Name: "nope"}})
+	}
+	return out
+}
+
+func (g *richGen) chain(depth int, final bool, vars []rvar, lower []rfn) []model.Node {
+	t := g.t
+	var out []model.Node
+	n := rapid.IntRange(0, 2).Draw(t, "ifs")
+	if g.narrow {
+		n = 1 // one if per level, the other branches are leaves: depth without breadth
+	}
+	if depth <= 0 {
+		n = 0
+	}
+	for i := 0; i < n; i++ {
+		f := &model.If{Cond: g.cond(vars, lower)}
+		deepIn := 0
+		if g.narrow {
+			deepIn = rapid.IntRange(0, 2).Draw(t, "deepin") // which branch carries the nesting
+		}
+		sub := func(k int) []model.Node {
+			if g.narrow && k != deepIn {
+				return g.block(0, vars, lower)
+			}
+			return g.block(depth-1, vars, lower)
+		}
+		f.Then = sub(0)
+		nei := rapid.IntRange(0, 2).Draw(t, "elseifs")
+		if g.narrow {
+			nei = rapid.IntRange(0, 1).Draw(t, "elseif")
+		}
+		for j := 0; j < nei; j++ {
+			f.ElseIfs = append(f.ElseIfs, model.ElseIf{Cond: g.cond(vars, lower), Then: sub(1)})
+		}
+		if rapid.Bool().Draw(t, "else") || (g.narrow && deepIn == 2) {
+			f.HasElse = true
+			f.Else = sub(2)
+		}
+		if g.narrow && deepIn == 1 && nei == 0 {
+			f.ElseIfs = append(f.ElseIfs, model.ElseIf{Cond: g.cond(vars, lower), Then: sub(1)})
+		}
+		if rapid.IntRange(0, 4).Draw(t, "emitting") == 0 {
+			out = append(out, model.EmitIf{If: f}) // what it renders before a return is not part of the value
+		} else {
+			out = append(out, model.Code{S: model.IfS{If: f}})
+		}
+		if rapid.IntRange(0, 9).Draw(t, "txt") == 0 {
+			out = append(out, model.Text{S: "(body text)"})
+		}
+	}
+	if final {
+		out = append(out, g.retStmts(vars)...)
+	}
+	return out
+}
+
+func (g *richGen) block(depth int, vars []rvar, lower []rfn) []model.Node {
+	var pre []model.Node
+	if rapid.IntRange(0, 5).Draw(g.t, "blocklet") == 0 {
+		pre = append(pre, model.Code{S: model.LetS{Name: "tmp", X: model.Lit{V: "local"}}})
+	}
+	if rapid.IntRange(0, 4).Draw(g.t, "fall") == 0 {
+		return append(pre, g.chain(depth, false, vars, lower)...)
+	}
+	return append(pre, g.chain(depth, true, vars, lower)...)
+}
+
+func (g *richGen) define(i int) (rfn, model.Node) {
+	t := g.t
+	np := rapid.IntRange(0, 4).Draw(t, "nparams")
+	f := rfn{name: fmt.Sprintf("g%d", i)}
+	for k := 0; k < np; k++ {
+		f.params = append(f.params, rvar{paramNames[k], fam(rapid.IntRange(0, 2).Draw(t, "fam"))})
+	}
+	g.noID = false
+	if np > 0 && rapid.IntRange(0, 4).Draw(t, "exotic") == 0 {
+		// a parameter named like a helper, like a variable of the caller, like the caller's loop variable
+		n := rapid.SampledFrom([]string{"id", "len", "raw", "tmp", "res", "it"}).Draw(t, "pname")
+		f.params[rapid.IntRange(0, np-1).Draw(t, "which")].name = n
+		g.noID = n == "id"
+		g.class["parameter-named-"+n] = true
+	}
+	lower := g.fns
+	vars := append(make([]rvar, 0, 8), f.params...) // never nil: nil means "at the caller's level" to argFrom
+	var body []model.Node
+	for k := rapid.IntRange(0, 3).Draw(t, "prelude"); k > 0; k-- {
+		switch rapid.IntRange(0, 9).Draw(t, "pre") {
+		case 0:
+			body = append(body, model.Text{S: "(t)"})
+		case 1:
+			if len(vars) > 0 {
+				body = append(body, model.Emit{X: model.Var{Name: vars[rapid.IntRange(0, len(vars)-1).Draw(t, "ev")].name}})
+			}
+		case 2:
+			fm := fam(rapid.IntRange(0, 2).Draw(t, "lfam"))
+			n := g.fresh("v")
+			body = append(body, model.Code{S: model.LetS{Name: n, X: g.lit(fm)}})
+			vars = append(vars, rvar{n, fm})
+			g.class["body-let-read"] = true
+		case 3:
+			if len(f.params) > 0 {
+				p := f.params[rapid.IntRange(0, len(f.params)-1).Draw(t, "sp")]
+				body = append(body, model.Code{S: model.LetS{Name: p.name, X: g.lit(p.fam)}})
+				g.class["parameter-shadowed-by-let"] = true
+			}
+		case 4:
+			if len(f.params) > 0 {
+				p := f.params[rapid.IntRange(0, len(f.params)-1).Draw(t, "ap")]
+				body = append(body, model.Code{S: model.AssignS{Name: p.name, X: g.lit(p.fam)}})
+				g.class["parameter-assigned"] = true
+			}
+		case 5:
+			s := g.fresh("s")
+			g.ret++
+			body = append(body,
+				model.Code{S: model.IfS{If: &model.If{Cond: g.cond(vars, nil), Then: []model.Node{model.Code{S: model.LetS{Name: s, X: model.Lit{V: "set"}}}}}}},
+				model.Code{S: model.IfS{If: &model.If{Cond: model.Var{Name: s}, Then: []model.Node{model.Code{S: model.ReturnS{X: model.Lit{V: fmt.Sprintf("r%d", g.ret)}}}}}}})
+			g.class["sensor"] = true
+		case 6:
+			if len(lower) > 0 {
+				body = append(body, model.Code{S: model.ExprS{X: g.callOf(lower[rapid.IntRange(0, len(lower)-1).Draw(t, "lf")], vars, nil)}})
+				g.class["call-as-statement-in-body"] = true
+			}
+		case 7:
+			if len(lower) > 0 {
+				n := g.fresh("v")
+				body = append(body, model.Code{S: model.LetS{Name: n, X: g.callOf(lower[rapid.IntRange(0, len(lower)-1).Draw(t, "lf")], vars, nil)}})
+				vars = append(vars, rvar{n, famAny})
+				g.class["call-in-let-in-body"] = true
+			}
+		case 8:
+			n := g.fresh("v")
+			body = append(body, model.Code{S: model.LetS{Name: n, X: g.tick()}})
+			vars = append(vars, rvar{n, famInt})
+		case 9:
+			body = append(body, model.Code{S: model.LetS{Name: "tmp", X: model.Lit{V: "local"}}})
+			g.locals["tmp"] = true
+		}
+	}
+	depth := rapid.IntRange(1, 3).Draw(t, "depth")
+	if g.narrow = rapid.IntRange(0, 7).Draw(t, "narrow") == 0; g.narrow {
+		depth = rapid.IntRange(4, 12).Draw(t, "deep")
+		g.class["return-nested-4-to-12-blocks"] = true
+	}
+	body = append(body, g.chain(depth, true, vars, lower)...)
+	g.narrow = false
+	var names []string
+	for _, p := range f.params {
+		names = append(names, p.name)
+	}
+	return f, model.Code{S: model.LetS{Name: f.name, X: model.FnLit{Params: names, Body: body}}}
+}
+
+func (g *richGen) program() ([]model.Node, []string) {
+	t := g.t
+	g.locals = map[string]bool{"tmp": true}
+	g.class = map[string]bool{}
+	T := func(s string) model.Node { return model.Text{S: s} }
+	var prog []model.Node
+	// variables of the caller named like names the bodies let-bind
+	callerTmp := rapid.Bool().Draw(t, "callertmp")
+	if callerTmp {
+		prog = append(prog, model.Code{S: model.LetS{Name: "tmp", X: model.Lit{V: "caller"}}}, model.Code{S: model.LetS{Name: "res", X: model.Lit{V: "init"}}})
+	}
+	for i, n := 0, rapid.IntRange(1, 3).Draw(t, "nfuncs"); i < n; i++ {
+		f, def := g.define(i)
+		g.fns = append(g.fns, f)
+		prog = append(prog, def)
+	}
+	g.noID = false
+	resBound := callerTmp
+	for u, n := 0, rapid.IntRange(1, 4).Draw(t, "ncalls"); u < n; u++ {
+		f := g.fns[rapid.IntRange(0, len(g.fns)-1).Draw(t, "callee")]
+		use := rapid.IntRange(0, 19).Draw(t, "use")
+		var extra model.Expr
+		if use == 10 || use == 11 {
+			extra = model.Var{Name: "it"}
+		}
+		call := g.callOf(f, nil, extra)
+		prog = append(prog, T("["))
+		switch use {
+		case 0, 1:
+			prog = append(prog, model.Emit{X: call})
+		case 2:
+			prog = append(prog, model.Code{S: model.LetS{Name: "res", X: call}}, model.EmitIf{If: &model.If{Cond: model.Var{Name: "res"}, Then: []model.Node{model.Emit{X: model.Var{Name: "res"}}}}})
+			resBound = true
+		case 3:
+			prog = append(prog, model.Emit{X: model.Bin{Op: rapid.SampledFrom([]string{"==", "!="}).Draw(t, "eq"), L: call, R: model.Lit{V: fmt.Sprintf("r%d", rapid.IntRange(1, 6).Draw(t, "rk"))}}})
+		case 4:
+			prog = append(prog, model.EmitIf{If: &model.If{Cond: call, Then: []model.Node{T("T")}, HasElse: true, Else: []model.Node{T("F")}}})
+		case 5:
+			prog = append(prog, model.EmitIf{If: &model.If{Cond: model.Var{Name: "f"}, Then: []model.Node{T("T")}, ElseIfs: []model.ElseIf{{Cond: call, Then: []model.Node{T("EI")}}}, HasElse: true, Else: []model.Node{T("E")}}})
+		case 6:
+			prog = append(prog, model.Emit{X: model.Bin{Op: "+", L: model.Lit{V: "p-"}, R: call}})
+		case 7:
+			prog = append(prog, model.Emit{X: model.Call{Fn: "id", Args: []model.Expr{call}}})
+		case 8:
+			prog = append(prog, model.Emit{X: model.Not{X: call}})
+		case 9:
+			prog = append(prog, model.EmitIf{If: &model.If{Cond: model.Lit{V: true}, Then: []model.Node{T("a"), model.Emit{X: call}, T("b")}}})
+		case 10: // the same call site several times, its arguments following the loop variable
+			prog = append(prog, model.EmitFor{For: &model.For{Val: "it", Iter: model.Arr{Els: []model.Expr{g.lit(famStr), g.lit(famInt), g.lit(famBool), g.lit(famStr)}}, Body: []model.Node{T("a"), model.Emit{X: call}, T("b")}}})
+			g.class["call-in-loop"] = true
+		case 11:
+			prog = append(prog, model.EmitFor{For: &model.For{Val: "it", Iter: model.Var{Name: "two"}, Body: []model.Node{T("a"), model.Code{S: model.ExprS{X: call}}, T("b")}}})
+			g.class["call-in-loop"] = true
+		case 12:
+			prog = append(prog, model.Code{S: model.ExprS{X: call}}, T("silent"))
+		case 13:
+			prog = append(prog, model.EmitIf{If: &model.If{Cond: model.Lit{V: true}, Then: []model.Node{T("a"), model.Code{S: model.ExprS{X: call}}, T("b")}}})
+		case 14:
+			prog = append(prog, model.Emit{X: model.Idx{X: model.Arr{Els: []model.Expr{model.Lit{V: "z"}, call}}, I: model.Var{Name: "i1"}}})
+		case 15:
+			prog = append(prog, model.Code{S: model.LetS{Name: "hh", X: model.Hash{KVs: []model.KV{{K: "k", V: call}}}}}, model.Emit{X: model.Bin{Op: "==", L: model.Idx{X: model.Var{Name: "hh"}, I: model.Lit{V: "k"}}, R: model.Lit{V: nil}}})
+		case 16:
+			prog = append(prog, model.Emit{X: model.Bin{Op: rapid.SampledFrom([]string{"&&", "||"}).Draw(t, "lop"), L: call, R: model.Var{Name: rapid.SampledFrom([]string{"t", "f"}).Draw(t, "bv")}}})
+		case 17:
+			if !resBound {
+				prog = append(prog, model.Code{S: model.LetS{Name: "res", X: model.Lit{V: "init"}}})
+				resBound = true
+			}
+			prog = append(prog, model.Code{S: model.AssignS{Name: "res", X: call}}, model.Emit{X: model.Bin{Op: "==", L: model.Var{Name: "res"}, R: model.Lit{V: "init"}}})
+		case 18:
+			prog = append(prog, model.Emit{X: model.Bin{Op: "==", L: call, R: call}})
+		case 19: // a caller variable rebound between two evaluations of the same call
+			prog = append(prog, model.Emit{X: call}, model.Code{S: model.LetS{Name: rapid.SampledFrom(paramNames).Draw(t, "rebind"), X: model.Lit{V: "Z"}}}, T("/"), model.Emit{X: call})
+			g.class["caller-variable-rebound"] = true
+		}
+		prog = append(prog, T("]"))
+	}
+	// afterwards: the caller's variables are what they were, and nothing a body bound is visible
+	prog = append(prog, T("|"))
+	for _, n := range paramNames {
+		prog = append(prog, model.Emit{X: model.Var{Name: n}})
+	}
+	var ls []string
+	for n := range g.locals {
+		ls = append(ls, n)
+	}
+	sort.Strings(ls)
+	for _, n := range ls {
+		if n == "tmp" && callerTmp {
+			prog = append(prog, model.Emit{X: model.Var{Name: "tmp"}})
+			continue
+		}
+		prog = append(prog, model.EmitIf{If: &model.If{Cond: model.Var{Name: n}, Then: []model.Node{T("LEAK:" + n)}}})
+	}
+	if len(g.ticks) > 0 || g.class["dead-code-with-effect"] {
+		prog = append(prog, T("|"))
+		for _, k := range append(g.ticks, "dead") {
+			prog = append(prog, model.Emit{X: model.Call{Fn: "tick", Args: []model.Expr{model.Lit{V: k}}}}, T(","))
+		}
+	}
+	var cs []string
+	for c := range g.class {
+		cs = append(cs, c)
+	}
+	sort.Strings(cs)
+	return prog, cs
+}
+
+// ---- generated recursion (R4) -----------------------------------------------------------------
+//
+// rec(p1..pk, n): k string parameters and a counter. n <= 0 ends the recursion; otherwise the body may keep a
+// parameter in a let, call itself (arguments: the parameters permuted, repeated, joined with literals; n - 1),
+// and return an expression that reads parameters, the let and the inner result AFTER the inner call, or a self call
+// in tail position. Two such functions may also call each other. Every body reads only its parameters and lets.
+
+func recProgram(t *rapid.T) ([]model.Node, string) {
+	k := rapid.IntRange(1, 3).Draw(t, "k")
+	ps := append(append([]string(nil), paramNames[:k]...), "n")
+	v := func(n string) model.Expr { return model.Var{Name: n} }
+	lit := func(x interface{}) model.Expr { return model.Lit{V: x} }
+	bin := func(op string, l, r model.Expr) model.Expr { return model.Bin{Op: op, L: l, R: r} }
+	ret := func(e model.Expr) model.Node { return model.Code{S: model.ReturnS{X: e}} }
+	mutual := rapid.IntRange(0, 3).Draw(t, "mutual") == 0
+	names := []string{"rec"}
+	if mutual {
+		names = []string{"rec", "cer"}
+	}
+	strOf := func(locals []string) model.Expr { // a string: parameter, let, literal
+		pool := append(append([]string(nil), paramNames[:k]...), locals...)
+		if rapid.IntRange(0, 3).Draw(t, "litstr") == 0 {
+			return lit(rapid.SampledFrom([]string{"x", "y", "-"}).Draw(t, "s"))
+		}
+		return v(rapid.SampledFrom(pool).Draw(t, "sv"))
+	}
+	selfCall := func(locals []string) model.Expr {
+		// the inner result is not passed down again: sizes would grow as a tower of exponentials
+		var nl []string
+		for _, l := range locals {
+			if l != "r" {
+				nl = append(nl, l)
+			}
+		}
+		locals = nl
+		var args []model.Expr
+		for i := 0; i < k; i++ {
+			switch rapid.IntRange(0, 4).Draw(t, "ak") {
+			case 0:
+				args = append(args, bin("+", strOf(locals), strOf(locals)))
+			default:
+				args = append(args, strOf(locals))
+			}
+		}
+		args = append(args, bin("-", v("n"), lit(1)))
+		return model.Call{Fn: rapid.SampledFrom(names).Draw(t, "callee"), Args: args}
+	}
+	nlab := 0
+	concat := func(locals []string) model.Expr {
+		nlab++
+		var e model.Expr = lit(fmt.Sprintf("r%d", nlab))
+		for i := rapid.IntRange(0, 3).Draw(t, "terms"); i > 0; i-- {
+			e = bin("+", e, strOf(locals))
+		}
+		return e
+	}
+	var prog []model.Node
+	classes := map[string]bool{}
+	for _, name := range names {
+		body := []model.Node{model.Code{S: model.IfS{If: &model.If{Cond: bin("<=", v("n"), lit(0)), Then: []model.Node{ret(concat(nil))}}}}}
+		var locals []string
+		if rapid.Bool().Draw(t, "keep") {
+			body = append(body, model.Code{S: model.LetS{Name: "keep", X: strOf(nil)}})
+			locals = append(locals, "keep")
+			classes["let-kept-across-call"] = true
+		}
+		if rapid.IntRange(0, 2).Draw(t, "inner") > 0 {
+			body = append(body, model.Code{S: model.LetS{Name: "r", X: selfCall(locals)}})
+			locals = append(locals, "r")
+			classes["result-in-let"] = true
+		}
+		if rapid.IntRange(0, 3).Draw(t, "shadow") == 0 {
+			// a parameter rebound inside the body after the inner call
+			// (not from the inner result: what is passed down must stay small)
+			var nl []string
+			for _, l := range locals {
+				if l != "r" {
+					nl = append(nl, l)
+				}
+			}
+			body = append(body, model.Code{S: model.LetS{Name: paramNames[rapid.IntRange(0, k-1).Draw(t, "sp")], X: concat(nl)}})
+			classes["parameter-rebound"] = true
+		}
+		final := func() model.Node {
+			switch rapid.IntRange(0, 3).Draw(t, "final") {
+			case 0:
+				classes["tail-call"] = true
+				return ret(selfCall(locals))
+			case 1:
+				classes["call-in-operand"] = true
+				return ret(bin("+", bin("+", selfCall(locals), lit("/")), concat(locals)))
+			case 2:
+				classes["two-calls"] = true
+				return ret(bin("+", bin("+", selfCall(locals), lit("&")), selfCall(locals)))
+			}
+			return ret(concat(locals))
+		}
+		for i := rapid.IntRange(0, 2).Draw(t, "ifs"); i > 0; i-- {
+			var c model.Expr
+			switch rapid.IntRange(0, 3).Draw(t, "ck") {
+			case 0:
+				c = bin("==", v("n"), lit(rapid.IntRange(1, 3).Draw(t, "nv")))
+			case 1:
+				c = bin("==", strOf(locals), strOf(locals))
+			case 2:
+				c = bin(">", v("n"), lit(rapid.IntRange(1, 2).Draw(t, "nv")))
+			default:
+				c = bin("!=", v(paramNames[0]), lit(rapid.SampledFrom([]string{"A", "B", "x"}).Draw(t, "sl")))
+			}
+			f := &model.If{Cond: c, Then: []model.Node{final()}}
+			if rapid.Bool().Draw(t, "else") {
+				f.HasElse = true
+				f.Else = []model.Node{final()}
+			}
+			body = append(body, model.Code{S: model.IfS{If: f}})
+		}
+		body = append(body, final())
+		prog = append(prog, model.Code{S: model.LetS{Name: name, X: model.FnLit{Params: ps, Body: body}}})
+	}
+	for i := rapid.IntRange(1, 2).Draw(t, "ncalls"); i > 0; i-- {
+		var args []model.Expr
+		for j := 0; j < k; j++ {
+			if rapid.Bool().Draw(t, "namesake") {
+				args = append(args, v(rapid.SampledFrom(paramNames).Draw(t, "ns")))
+			} else {
+				args = append(args, lit(rapid.SampledFrom([]string{"x", "y", "A"}).Draw(t, "al")))
+			}
+		}
+		args = append(args, lit(rapid.IntRange(0, 4).Draw(t, "depth")))
+		prog = append(prog, model.Text{S: "["}, model.Emit{X: model.Call{Fn: rapid.SampledFrom(names).Draw(t, "entry"), Args: args}}, model.Text{S: "]"})
+	}
+	prog = append(prog, model.Text{S: "|"})
+	for _, n := range paramNames {
+		prog = append(prog, model.Emit{X: v(n)})
+	}
+	for _, n := range []string{"n", "keep", "r"} {
+		prog = append(prog, model.EmitIf{If: &model.If{Cond: v(n), Then: []model.Node{model.Text{S: "LEAK:" + n}}}})
+	}
+	var cs []string
+	for c := range classes {
+		cs = append(cs, c)
+	}
+	sort.Strings(cs)
+	class := "recursion"
+	if mutual {
+		class = "recursion-mutual"
+	}
+	return prog, class + ":" + strings.Join(cs, "+")
 }
 
 // ---- fixed programs ---------------------------------------------------------------------
@@ -485,12 +1216,334 @@ func fixed() [][]model.Node {
 	return out
 }
 
-const rule = "(E) 61 fixed programs: self-recursion whose parameters and lets are read after the inner call returned (sum, fibonacci, a let kept across the call, swapped arguments), swapped and rotated namesake arguments, nested calls, results used in + == < ! || and if tests, emission inside if/for blocks with content after it, aliasing, higher-order application, a function returning a function, recursion to depth 25, first-return-wins with dead code; each in the tag-per-statement and in the compact single-tag layout. (R) generated functions of 0-4 parameters (families int/string/bool) whose bodies are if/else-if/else decision chains over the parameters nested to depth 3, every path ending in return <unique label>, with dead code after returns and local lets; argument tuples from literals (incl. nil), plain variables, caller variables NAMED LIKE THE FUNCTION'S OWN PARAMETERS, and calls of the SAME function in any argument position; 12 use sites (emit, let-then-emit, ==, if test, +, string concat, argument of a user function / Go helper, inside if / for blocks with text after, higher-order through a parameter). (R2) call SEQUENCES in one render: 2-3 functions of one signature and 2-5 calls, each direct, through a higher-order function handed any of them, through a parameter NAMED LIKE an already-called function, through two function parameters in one body, or through an alias rebound with let / = between calls, so that one called name resolves to different functions at different moments. Oracle: reference interpreter (arguments evaluated in the caller's scope, parameters bound to argument values, fresh scope, first return reached). Non-trivial: every generated program (distinct by template text)."
+// ---- further fixed programs (boundaries, state between calls) -------------------------
+
+type fixedProg struct {
+	name string
+	prog []model.Node
+	many int
+}
+
+func fixed2(thorough bool) []fixedProg {
+	T := func(s string) model.Node { return model.Text{S: s} }
+	ret := func(e model.Expr) model.Node { return model.Code{S: model.ReturnS{X: e}} }
+	v := func(n string) model.Expr { return model.Var{Name: n} }
+	lit := func(x interface{}) model.Expr { return model.Lit{V: x} }
+	bin := func(op string, l, r model.Expr) model.Expr { return model.Bin{Op: op, L: l, R: r} }
+	let := func(n string, e model.Expr) model.Node { return model.Code{S: model.LetS{Name: n, X: e}} }
+	asg := func(n string, e model.Expr) model.Node { return model.Code{S: model.AssignS{Name: n, X: e}} }
+	call := func(fn string, a ...model.Expr) model.Expr { return model.Call{Fn: fn, Args: a} }
+	stmt := func(e model.Expr) model.Node { return model.Code{S: model.ExprS{X: e}} }
+	emit := func(e model.Expr) model.Node { return model.Emit{X: e} }
+	fn := func(params []string, body ...model.Node) model.Expr { return model.FnLit{Params: params, Body: body} }
+	ps := func(n ...string) []string { return n }
+	sif := func(c model.Expr, ns ...model.Node) model.Node {
+		return model.Code{S: model.IfS{If: &model.If{Cond: c, Then: ns}}}
+	}
+	eif := func(c model.Expr, ns ...model.Node) model.Node { return model.EmitIf{If: &model.If{Cond: c, Then: ns}} }
+	ifelse := func(c model.Expr, th, el []model.Node) model.Node {
+		return model.EmitIf{If: &model.If{Cond: c, Then: th, HasElse: true, Else: el}}
+	}
+	arr := func(e ...model.Expr) model.Expr { return model.Arr{Els: e} }
+	idx := func(x, i model.Expr) model.Expr { return model.Idx{X: x, I: i} }
+	hash := func(k string, e model.Expr) model.Expr { return model.Hash{KVs: []model.KV{{K: k, V: e}}} }
+	var out []fixedProg
+	add := func(name string, ns ...model.Node) { out = append(out, fixedProg{name: name, prog: ns}) }
+	addMany := func(name string, many int, ns ...model.Node) {
+		out = append(out, fixedProg{name: name, prog: ns, many: many})
+	}
+	probes := []model.Node{T("|"), emit(v("a")), emit(v("b")), emit(v("c")), emit(v("d"))}
+	leak := func(names ...string) []model.Node {
+		var ns []model.Node
+		for _, n := range names {
+			ns = append(ns, eif(v(n), T("LEAK:"+n)))
+		}
+		return ns
+	}
+	cat := func(parts ...[]model.Node) []model.Node {
+		var ns []model.Node
+		for _, p := range parts {
+			ns = append(ns, p...)
+		}
+		return ns
+	}
+	one := func(n model.Node) []model.Node { return []model.Node{n} }
+
+	// mutual recursion, self-application, a helper function local to a body, recursion in tail position with
+	// swapped / mutually dependent arguments
+	even := let("even", fn(ps("n"), sif(bin("==", v("n"), lit(0)), ret(lit(true))), ret(call("odd", bin("-", v("n"), lit(1))))))
+	odd := let("odd", fn(ps("n"), sif(bin("==", v("n"), lit(0)), ret(lit(false))), ret(call("even", bin("-", v("n"), lit(1))))))
+	fact := let("fact", fn(ps("self", "n"), sif(bin("==", v("n"), lit(0)), ret(lit(1))), ret(bin("*", v("n"), call("self", v("self"), bin("-", v("n"), lit(1)))))))
+	local := let("outerf", fn(ps("x"), let("h", fn(ps("y"), ret(bin("+", v("y"), lit(1))))), ret(call("h", call("h", v("x"))))))
+	tsw := let("tsw", fn(ps("a", "b", "n"), sif(bin("==", v("n"), lit(0)), ret(bin("+", bin("+", v("a"), lit("/")), v("b")))), ret(call("tsw", v("b"), v("a"), bin("-", v("n"), lit(1))))))
+	fibi := let("fibi", fn(ps("a", "b", "n"), sif(bin("==", v("n"), lit(0)), ret(v("a"))), ret(call("fibi", v("b"), bin("+", v("a"), v("b")), bin("-", v("n"), lit(1))))))
+	rot := let("rot", fn(ps("a", "b", "c", "n"), sif(bin("==", v("n"), lit(0)), ret(bin("+", bin("+", v("a"), v("b")), v("c")))), ret(call("rot", v("b"), v("c"), v("a"), bin("-", v("n"), lit(1))))))
+	for _, k := range []int{0, 1, 2, 7, 10} {
+		add("mutual", even, odd, emit(call("even", lit(k))), T("|"), emit(call("odd", lit(k))))
+		add("self-application", fact, emit(call("fact", v("fact"), lit(k))))
+		add("tail-swap", tsw, emit(call("tsw", v("a"), v("b"), lit(k))), T("|"), emit(call("tsw", lit("x"), lit("y"), lit(k))))
+		add("tail-dependent", fibi, emit(call("fibi", lit(0), lit(1), lit(k))))
+		add("tail-rotate", rot, emit(call("rot", v("c"), v("a"), v("b"), lit(k))))
+	}
+	add("local-function", local, emit(call("outerf", lit(1))), T("|"), emit(call("outerf", lit(5))), cat(leak("h", "y", "x"))[0], cat(leak("h", "y", "x"))[1], cat(leak("h", "y", "x"))[2])
+
+	// deep recursion (the statement sets no bound; plush documents 1000 nested calls)
+	cd := let("cd", fn(ps("n"), sif(bin("==", v("n"), lit(0)), ret(lit("done"))), ret(call("cd", bin("-", v("n"), lit(1))))))
+	sa := let("sa", fn(ps("n"), sif(bin("<=", v("n"), lit(0)), ret(lit(0))), ret(bin("+", call("sa", bin("-", v("n"), lit(1))), v("n")))))
+	for _, k := range []int{60, 99, 100, 101, 128, 300, 900} {
+		add("deep-recursion", cd, emit(call("cd", lit(k))))
+		if k < 900 || thorough {
+			add("deep-recursion", sa, emit(call("sa", lit(k))))
+		}
+	}
+
+	// a return nested in k blocks (silent ifs, and emitting ifs with text before the return) ends the call
+	for k := 1; k <= 14; k++ {
+		for _, emitting := range []bool{false, true} {
+			inner := []model.Node{ret(lit(fmt.Sprintf("deep%d", k))), ret(lit("dead"))}
+			for i := 0; i < k; i++ {
+				var n model.Node
+				if emitting {
+					n = model.EmitIf{If: &model.If{Cond: v("x"), Then: cat(one(T("t")), inner)}}
+				} else if i%2 == 0 {
+					n = sif(v("x"), inner...)
+				} else {
+					n = model.Code{S: model.IfS{If: &model.If{Cond: model.Not{X: v("x")}, Then: one(ret(lit("wrong"))), HasElse: true, Else: inner}}}
+				}
+				inner = []model.Node{n, ret(lit(fmt.Sprintf("after%d", i)))}
+			}
+			add("return-depth", let("nest", fn(ps("x"), inner...)), emit(call("nest", lit(true))), T("|"), emit(call("nest", lit(false))))
+		}
+	}
+
+	// fresh scope: what one call let-binds is gone in the next call of the same function, and in the caller
+	sensor := let("sens", fn(ps("a"), sif(v("a"), let("s0", lit("v"))), sif(v("s0"), ret(lit("seen"))), ret(lit("unseen"))))
+	add("fresh-scope", cat(one(sensor), one(emit(call("sens", lit("x")))), one(emit(call("sens", lit(nil)))), one(emit(call("sens", lit(false)))), one(emit(call("sens", lit("y")))), one(emit(call("sens", lit("")))), leak("s0"), probes)...)
+	add("fresh-scope", cat(one(sensor), one(eif(lit(true), emit(call("sens", lit("x"))), emit(call("sens", lit(nil))))), one(model.EmitFor{For: &model.For{Val: "it", Iter: arr(lit("p"), lit(""), lit("q"), lit(false), lit(0)), Body: one(emit(call("sens", v("it"))))}}), leak("s0"))...)
+	wrapSens := let("ws", fn(ps("a", "b"), ret(bin("+", call("sens", v("a")), call("sens", v("b"))))))
+	add("fresh-scope", cat(one(sensor), one(wrapSens), one(emit(call("ws", lit("x"), lit("")))), one(emit(call("ws", lit(false), lit("")))), one(emit(call("ws", lit(""), lit("y")))), leak("s0"))...)
+	// functions without parameters get a fresh scope too
+	for _, np := range []int{0, 1, 2} {
+		params := []string{"p", "q"}[:np]
+		var args []model.Expr
+		for i := 0; i < np; i++ {
+			args = append(args, lit(i))
+		}
+		zf := let("zf", fn(params, let("tmp", lit("local")), let("a", lit("changed")), let("fresh", lit("f")), ret(v("tmp"))))
+		add("fresh-scope", cat([]model.Node{let("tmp", lit("caller")), zf, emit(call("zf", args...)), T("|"), emit(v("tmp")), emit(v("a"))}, leak("fresh"), probes)...)
+		add("fresh-scope", cat([]model.Node{zf, emit(call("zf", args...)), emit(call("zf", args...))}, leak("tmp", "fresh"), probes)...)
+		za := let("za", fn(params, let("a", lit("mine")), asg("a", bin("+", v("a"), lit("!"))), ret(v("a"))))
+		add("fresh-scope", cat([]model.Node{za, emit(call("za", args...)), emit(call("za", args...))}, probes)...)
+	}
+	// parameters shadowed by let / assigned inside the body; the caller's namesakes keep their values
+	sh := let("sh", fn(ps("a", "b"), let("a", bin("+", v("b"), lit("'"))), asg("b", lit("bb")), ret(bin("+", bin("+", v("a"), lit("-")), v("b")))))
+	add("fresh-scope", cat([]model.Node{sh, emit(call("sh", v("b"), v("a"))), T("|"), emit(call("sh", v("a"), v("b")))}, probes)...)
+
+	// return nil ends the call like any other return
+	rn := let("rn", fn(ps("a"), sif(bin("==", v("a"), lit(nil)), ret(lit(nil)), ret(lit("dead"))), ret(lit("after"))))
+	add("return-nil", rn, T("["), emit(call("rn", lit(nil))), T("]["), emit(call("rn", lit("x"))), T("]["), emit(bin("==", call("rn", lit(nil)), lit(nil))), T("]"),
+		ifelse(call("rn", lit(nil)), one(T("T")), one(T("F"))))
+	add("return-nil", let("rn0", fn(nil, ret(lit(nil)), ret(lit("after")))), T("["), emit(call("rn0")), T("]"), emit(bin("==", call("rn0"), lit(nil))))
+	add("return-nil", let("rf", fn(ps("a"), sif(v("a"), ret(lit(false))), ret(lit("after")))), T("["), emit(call("rf", lit(true))), T("]["), emit(call("rf", lit(false))), T("]"))
+
+	// statements after the return reached are not evaluated at all
+	dead := let("dd", fn(ps("a"), sif(v("a"), ret(lit("r1")), stmt(call("boom", lit(1))), let("z", bin("/", lit(1), lit(0))), stmt(call("tick", lit("dead")))),
+		ret(lit("r2")), stmt(call("boom", lit(2))), let("z", bin("+", v("nope"), lit(1))), stmt(call("tick", lit("dead"))), T("text"), emit(v("nope"))))
+	add("dead-code", dead, emit(call("dd", lit(true))), emit(call("dd", lit(false))), T("|"), emit(call("tick", lit("dead"))))
+
+	// a call that fails inside the body, forgiven by the caller's expression: the caller goes on in its own scope
+	bad := let("bad", fn(ps("a", "b"), let("tmp", lit("local")), ret(v("nope"))))
+	add("forgiven-failure", cat([]model.Node{bad, ifelse(call("bad", v("b"), v("a")), one(T("T")), one(T("F")))}, probes, leak("tmp"))...)
+	add("forgiven-failure", cat([]model.Node{bad, emit(bin("==", call("bad", v("b"), v("a")), lit(nil)))}, probes, leak("tmp"))...)
+	add("forgiven-failure", cat([]model.Node{bad, emit(model.Not{X: call("bad", lit("x"), lit("y"))}), emit(bin("||", call("bad", lit("x"), lit("y")), lit("z")))}, probes, leak("tmp"))...)
+	add("forgiven-failure", cat([]model.Node{bad, let("pair", fn(ps("a", "b"), ret(bin("+", bin("+", v("a"), lit("-")), v("b"))))),
+		emit(bin("==", call("bad", v("b"), v("a")), lit(nil))), emit(call("pair", v("a"), v("b"))), let("tmp", lit("mine")), emit(v("tmp"))}, probes)...)
+	// ... also when the failing call happens inside another function
+	add("forgiven-failure", cat([]model.Node{bad, let("outerf", fn(ps("c", "d"), sif(call("bad", v("d"), v("c")), ret(lit("T"))), ret(bin("+", v("c"), v("d"))))),
+		emit(call("outerf", v("d"), v("c")))}, probes, leak("tmp"))...)
+
+	// one call site evaluated more than a thousand times in one render
+	dbl := let("dbl", fn(ps("x"), ret(bin("*", v("x"), lit(2)))))
+	addMany("call-site-x1100", 1100, dbl, model.EmitFor{For: &model.For{Val: "it", Iter: v("many"), Body: []model.Node{emit(call("dbl", v("it"))), T(",")}}})
+	addMany("call-site-x1100", 1100, bad, model.EmitFor{For: &model.For{Val: "it", Iter: v("many"), Body: []model.Node{eif(bin("==", call("bad", v("it"), v("it")), lit(nil)), T("."))}}}, emit(call("tick", lit("end"))))
+	addMany("call-site-x1100", 1100, bad, dbl, model.EmitFor{For: &model.For{Val: "it", Iter: v("many"), Body: []model.Node{eif(model.Not{X: call("bad", v("it"), v("it"))}, emit(call("dbl", v("it"))), T(","))}}})
+
+	// argument expressions (not just names) that mention the caller's namesakes of the parameters
+	pair := let("pair", fn(ps("a", "b"), ret(bin("+", bin("+", v("a"), lit("-")), v("b")))))
+	for _, second := range []model.Expr{
+		bin("+", v("a"), lit("x")), bin("+", v("a"), v("b")), idx(arr(v("b"), v("a")), v("i1")), idx(hash("k", v("a")), lit("k")),
+		call("id", v("a")), call("id", bin("+", v("a"), v("b"))), idx(arr(call("pair", v("a"), v("b")), v("a")), v("i0")),
+	} {
+		add("composite-argument", pair, emit(call("pair", v("b"), second)), T("|"), emit(call("pair", second, v("a"))), T("|"), emit(call("pair", second, second)))
+	}
+	tst := let("tst", fn(ps("a", "b"), sif(v("b"), ret(bin("+", lit("T:"), v("a")))), ret(bin("+", lit("F:"), v("a")))))
+	add("composite-argument", tst, emit(call("tst", v("b"), model.Not{X: v("a")})), T("|"), emit(call("tst", v("b"), bin("==", v("a"), lit("A")))), T("|"),
+		emit(call("tst", v("b"), bin("&&", v("a"), v("b")))), T("|"), emit(call("tst", lit(""), bin("||", v("a"), v("b")))))
+	// arguments are evaluated exactly once per call, whether or not the parameter is read
+	twice := let("twice", fn(ps("x", "unused"), ret(bin("+", bin("+", v("x"), v("x")), v("x")))))
+	add("evaluated-once", twice, emit(call("twice", call("tick", lit("p")), call("tick", lit("q")))), T("|"), emit(call("twice", call("tick", lit("p")), call("tick", lit("q")))), T("|"),
+		emit(call("tick", lit("p"))), emit(call("tick", lit("q"))))
+
+	// values that print alike are different values (one function, several calls in one render)
+	echo := let("echo", fn(ps("x"), ret(v("x"))))
+	add("alike-values", echo, emit(bin("+", call("echo", lit(1)), lit(1))), T("|"), emit(bin("+", call("echo", lit("1")), lit(1))), T("|"), emit(bin("+", call("echo", lit(1.0)), lit(1.5))))
+	add("alike-values", echo, emit(bin("+", call("echo", lit("1")), lit(1))), T("|"), emit(bin("+", call("echo", lit(1)), lit(1))))
+	add("alike-values", echo, emit(bin("==", call("echo", lit(nil)), lit(nil))), T("|"), emit(bin("==", call("echo", lit("<nil>")), lit(nil))), T("|"), emit(bin("==", call("echo", lit("")), lit(nil))))
+	add("alike-values", echo, emit(bin("==", call("echo", lit("<nil>")), lit(nil))), T("|"), emit(bin("==", call("echo", lit(nil)), lit(nil))))
+	add("alike-values", echo, emit(call("echo", arr(lit(1), lit(2)))), T("|"), emit(call("echo", lit("[1 2]"))), T("|"), emit(call("echo", arr(lit(1), lit(2)))))
+	add("alike-values", echo, emit(bin("==", call("echo", lit("true")), lit("true"))), T("|"), emit(bin("==", call("echo", lit(true)), lit(true))), T("|"), emit(bin("==", call("echo", lit("true")), lit("true"))))
+	add("alike-values", pair, emit(call("pair", lit("a b"), lit("c"))), T("|"), emit(call("pair", lit("a"), lit("b c"))), T("|"), emit(call("pair", lit("a b"), lit("c"))))
+	add("alike-values", pair, emit(call("pair", lit("1"), lit("2"))), T("|"), emit(call("pair", lit("1 2"), lit(""))), T("|"), emit(call("pair", lit(""), lit("1 2"))))
+	// the same call with a caller variable rebound in between
+	add("rebound-argument", pair, emit(call("pair", v("a"), v("b"))), let("a", lit("Z")), T("|"), emit(call("pair", v("a"), v("b"))), asg("b", lit("Y")), T("|"), emit(call("pair", v("a"), v("b"))))
+
+	// functions and parameters named like built-in helpers and like the Go helper of this check
+	for _, name := range []string{"len", "raw", "capitalize", "id", "partial", "debug"} {
+		add("helper-namesake", let(name, fn(ps("x"), ret(bin("+", lit("mine:"), v("x"))))), emit(call(name, lit("v"))), T("|"),
+			let("viaf", fn(ps("y"), ret(call(name, v("y"))))), emit(call("viaf", lit("w"))))
+		add("helper-namesake", let("g", fn(ps("x"), ret(bin("+", lit("g:"), v("x"))))), let("ap", fn(ps(name, "x"), ret(call(name, v("x"))))), emit(call("ap", v("g"), lit("v"))), T("|"),
+			let("ap2", fn(ps(name, "x"), sif(lit(true), ret(call(name, v("x")))), ret(lit("no")))), emit(call("ap2", v("g"), lit("w"))))
+	}
+
+	// values of every kind pass through parameters and returns: arrays, hashes, floats, functions
+	add("value-kinds", echo, emit(idx(call("echo", arr(lit("p"), lit("q"))), v("i1"))), T("|"), emit(idx(call("echo", hash("k", v("b"))), lit("k"))), T("|"), emit(bin("+", call("echo", lit(1.5)), lit(1.0))), T("|"),
+		let("g", call("echo", v("echo"))), emit(call("g", lit("fn"))), T("|"), let("h", call("id", v("echo"))), emit(call("h", lit("go"))))
+	add("value-kinds", let("second", fn(ps("xs"), ret(idx(v("xs"), lit(1))))), emit(call("second", v("two"))), emit(call("second", arr(v("a"), v("b")))),
+		let("mkarr", fn(ps("a", "b"), ret(arr(v("b"), v("a"))))), model.EmitFor{For: &model.For{Val: "it", Iter: call("mkarr", v("a"), v("b")), Body: []model.Node{T("("), emit(v("it")), T(")")}}},
+		emit(idx(call("mkarr", v("b"), v("c")), lit(0))))
+	add("value-kinds", let("mkh", fn(ps("a"), ret(hash("k", v("a"))))), let("m", call("mkh", v("b"))), emit(idx(v("m"), lit("k"))), emit(idx(call("mkh", lit("z")), lit("k"))))
+	// a function literal as an argument; a function that returns one of its function parameters
+	add("value-kinds", let("ap", fn(ps("h", "x"), ret(call("h", v("x"))))), emit(call("ap", fn(ps("y"), ret(bin("+", v("y"), lit("!")))), v("a"))), T("|"),
+		let("choose", fn(ps("c", "f", "g"), sif(v("c"), ret(v("f"))), ret(v("g")))), let("up", fn(ps("s"), ret(bin("+", v("s"), lit("^"))))), let("dn", fn(ps("s"), ret(bin("+", v("s"), lit("_"))))),
+		let("p1", call("choose", lit(true), v("up"), v("dn"))), let("p2", call("choose", lit(false), v("up"), v("dn"))), emit(call("p1", lit("x"))), emit(call("p2", lit("x"))), emit(call("ap", call("choose", lit(nil), v("up"), v("dn")), lit("y"))))
+
+	// the result used in every position of the caller
+	lab := let("lab", fn(ps("x"), sif(v("x"), ret(lit("yes"))), ret(lit(""))))
+	num := let("num", fn(ps("x"), ret(v("x"))))
+	add("use-sites", lab, emit(arr(call("lab", lit(1)), lit("z"))), T("|"), let("hh", hash("k", call("lab", lit(1)))), emit(idx(v("hh"), lit("k"))), T("|"),
+		model.EmitIf{If: &model.If{Cond: v("f"), Then: one(T("T")), ElseIfs: []model.ElseIf{{Cond: call("lab", lit(1)), Then: one(T("EI"))}}, HasElse: true, Else: one(T("E"))}}, T("|"),
+		model.EmitIf{If: &model.If{Cond: call("lab", lit(false)), Then: one(T("T")), ElseIfs: []model.ElseIf{{Cond: call("lab", lit(nil)), Then: one(T("EI"))}}, HasElse: true, Else: one(T("E"))}}, T("|"),
+		emit(model.Not{X: call("lab", lit(1))}), emit(model.Not{X: call("lab", lit(false))}), T("|"), emit(bin("&&", call("lab", lit(1)), v("t"))), emit(bin("||", v("f"), call("lab", lit(false)))), T("|"),
+		let("res", lit("init")), asg("res", call("lab", lit(1))), emit(v("res")), T("|"), stmt(call("lab", lit(1))), T("after"))
+	add("use-sites", num, emit(idx(v("two"), call("num", lit(1)))), T("|"), emit(bin("<", call("num", lit(1)), call("num", lit(2)))), emit(bin("*", call("num", lit(3)), call("num", lit(4)))), T("|"),
+		emit(bin("-", bin("*", call("num", lit(2)), call("num", lit(3))), call("num", lit(1)))), T("|"), emit(bin("~=", call("num", lit("abc")), lit("b"))), T("|"),
+		eif(lit(true), T("a"), stmt(call("num", lit(1))), T("b"), let("q", call("num", lit(7))), emit(v("q")), T("c")), T("|"),
+		model.EmitFor{For: &model.For{Val: "it", Iter: v("two"), Body: []model.Node{T("a"), stmt(call("num", v("it"))), let("q", call("num", v("it"))), emit(bin("*", v("q"), call("num", v("it")))), T("b")}}})
+	// calls as statements, as let values and in conditions INSIDE another function's body
+	add("use-sites", num, lab, let("user", fn(ps("x"), stmt(call("num", v("x"))), emit(call("num", v("x"))), let("r", call("lab", v("x"))), sif(call("lab", v("x")), ret(bin("+", lit("in:"), v("r")))), ret(lit("out")))),
+		emit(call("user", lit(1))), T("|"), emit(call("user", lit(false))), T("|"), emit(call("user", lit("s"))))
+	return out
+}
+
+// litCases: shapes the mini-AST cannot spell; expectations by hand from the statement (functions are values: they
+// can be stored anywhere a value can, and a call applies whatever function value the called expression yields).
+func litCases() []LitCase {
+	return []LitCase{
+		{`<% let mk = fn() { return fn(x) { return x + "!" } } %><%= mk()("hi") %>`, "hi!"},
+		{`<% let mk = fn(k) { return fn(x) { return x + "?" } } %><%= mk(1)("a") %>|<%= mk(2)(b) %>`, "a?|B?"},
+		{`<%= fn(y) { return y + 1 }(2) %>`, "3"},
+		{`<%= fn(a, b) { return a + "-" + b }(b, a) %>`, "B-A"},
+		{`<% let fs = [fn(y) { return y + 1 }, fn(y) { return y * 10 }] %><%= fs[0](4) %>|<%= fs[1](4) %>|<%= fs[i1](fs[i0](1)) %>`, "5|40|20"},
+		{`<% let fs = {"inc": fn(y) { return y + 1 }, "dec": fn(y) { return y - 1 }} %><%= fs["inc"](4) %>|<%= fs["dec"](4) %>`, "5|3"},
+		{`<% let fs = {"inc": fn(y) { return y + 1 }} %><% let g = fs["inc"] %><%= g(1) %>`, "2"},
+		{`<% let fs = [fn(a, b) { return a + "-" + b }] %><%= fs[0](b, a) %>|<%= a %><%= b %>`, "B-A|AB"},
+		{`<% let f = fn(x) { return [x, x + 1] } %><%= for (v) in f(3) { %>(<%= v %>)<% } %>|<%= f(5)[1] %>`, "(3)(4)|6"},
+		{`<% let f = fn(x) { return x }
+let g = fn(y) { return f(y) + f(y) } %><%= g(2) %>`, "4"},
+		{`<% let f = fn( x , y ) { return x - y } %><%= f( 5 , 3 ) %>|<%= f(5,
+ 3) %>`, "2|2"},
+		{`<% let f = fn(x) { return x; } %><%= f(1) %><% let g = fn(x) { return x; return 2; } %><%= g(3) %>`, "13"},
+		{`<% let g = fn(x,y,z,w,v,u) { return x + y + z + w + v + u } %><%= g("1","2","3","4","5","6") %>`, "123456"},
+	}
+}
+
+// calledExprCases (E): a call applies whatever function value the called expression yields - the result of another
+// call, an element of an array or a hash, a function literal - whatever the spelling of that expression. Every
+// function here appends a suffix to its argument, so the expectation is argument + suffix. Class
+// "called-expression-with-dot": the called expression contains a dot inside a number or a string.
+const dotClass = "called-expression-with-dot"
+
+type litClassed struct {
+	LitCase
+	class string
+}
+
+func calledExprCases() []litClassed {
+	type lv struct{ src, val string }
+	keys := []string{`"ab"`, `"a.b"`, `"."`, `"1.5"`, `1.5`, `2`, `"x y"`, `b`}
+	sufs := []string{"!", ".", ".5"}
+	args := []lv{{`"v"`, "v"}, {`"v.w"`, "v.w"}, {`b`, "B"}, {`a + "."`, "A."}}
+	var out []litClassed
+	for _, k := range keys {
+		for _, s := range sufs {
+			lit := `fn(x) { return x + "` + s + `" }`
+			forms := []struct{ pre, called string }{
+				{`<% let mk = fn(k) { return ` + lit + ` } %>`, `mk(` + k + `)`},
+				{``, lit},
+				{`<% let ap = fn(h) { return h } %>`, `ap(` + lit + `)`},
+			}
+			if strings.HasPrefix(k, `"`) {
+				forms = append(forms, struct{ pre, called string }{`<% let fs = {` + k + `: ` + lit + `, "other": fn(x) { return "wrong" }} %>`, `fs[` + k + `]`})
+			} else {
+				forms = append(forms, struct{ pre, called string }{`<% let fs = [fn(x) { return "wrong" }, ` + lit + `] %><% let ks = [` + k + `, 1] %>`, `fs[ks[1]]`})
+			}
+			for _, f := range forms {
+				for _, a := range args {
+					class := "called-expression"
+					if strings.Contains(f.called, ".") {
+						class = dotClass
+					}
+					out = append(out, litClassed{LitCase{f.pre + `[<%= ` + f.called + `(` + a.src + `) %>]`, "[" + a.val + s + "]"}, class})
+					// the result passed on: called again on its own result, and compared
+					out = append(out, litClassed{LitCase{f.pre + `<% let r = ` + f.called + `(` + f.called + `(` + a.src + `)) %>[<%= r %>|<%= ` + f.called + `(` + a.src + `) == "` + a.val + s + `" %>]`, "[" + a.val + s + s + "|true]"}, class})
+				}
+			}
+		}
+	}
+	return out
+}
+
+// memberCases (E): the value a call yields is a value like any other, so a member can be selected from it directly
+// (f(x).Name), exactly as from the result of a Go function or from a variable holding the same value.
+const memberClass = "member-of-call-result"
+
+func memberCases() []litClassed {
+	defs := `<% let same = fn(x) { return x } %><% let kidOf = fn(x) { return x.Kid } %><% let first = fn(x, y) { if (y) { return x } return y } %><% let ap = fn(h, x) { return h(x) } %>`
+	calls := []struct{ src, who string }{
+		{`same(user)`, "ann"}, {`kidOf(user)`, "kid"}, {`first(user, 1.5)`, "ann"}, {`first(user.Kid, "a.b")`, "kid"}, {`ap(same, user)`, "ann"}, {`same(same(user))`, "ann"},
+	}
+	var out []litClassed
+	for _, c := range calls {
+		out = append(out,
+			litClassed{LitCase{defs + `[<%= ` + c.src + `.Name %>]`, "[" + c.who + "]"}, memberClass},
+			litClassed{LitCase{defs + `[<%= ` + c.src + `.Hello() %>]`, "[hi " + c.who + "]"}, memberClass},
+			litClassed{LitCase{defs + `[<%= ` + c.src + `.Name == "` + c.who + `" %>]`, "[true]"}, memberClass},
+			litClassed{LitCase{defs + `[<%= if (` + c.src + `.Name == "` + c.who + `") { %>T<% } else { %>F<% } %>]`, "[T]"}, memberClass},
+			litClassed{LitCase{defs + `<% let n = ` + c.src + `.Name %>[<%= n + "!" %>]`, "[" + c.who + "!]"}, memberClass},
+			// controls: the same value held in a variable first
+			litClassed{LitCase{defs + `<% let u = ` + c.src + ` %>[<%= u.Name %>|<%= u.Hello() %>]`, "[" + c.who + "|hi " + c.who + "]"}, "member-of-variable"},
+		)
+	}
+	out = append(out, litClassed{LitCase{defs + `[<%= same(user).Kid.Name %>]`, "[kid]"}, memberClass})
+	return out
+}
+
+const rule = "(E) 61 fixed programs: self-recursion whose parameters and lets are read after the inner call returned (sum, fibonacci, a let kept across the call, swapped arguments), swapped and rotated namesake arguments, nested calls, results used in + == < ! || and if tests, emission inside if/for blocks with content after it, aliasing, higher-order application, a function returning a function, recursion to depth 25, first-return-wins with dead code; each in the tag-per-statement and in the compact single-tag layout. " +
+	"(E2) ~135 boundary and state programs x 2 layouts: mutual recursion, self-application, a function local to a body, recursion in tail position with swapped / rotated / mutually dependent arguments, recursion to depth 60..900 (around 100 and 128), a return nested in 1..14 silent or emitting blocks, conditional lets that must be gone in the next call of the same function (directly, in blocks, in loops, through another function) and in the caller, functions of 0/1/2 parameters whose lets are named like variables of the caller, parameters shadowed by let and assigned, return nil / false / \"\" followed by more code, dead code that would fail or count if it were evaluated, calls that fail inside the body and are forgiven by if / == / ! / || with the caller's variables probed afterwards, one call site evaluated 1100 times (succeeding, and failing + forgiven), argument EXPRESSIONS (+, index of an array / hash literal, Go helper call, nested call, ! == && ||) that mention namesakes of the parameters, arguments counted by a tick helper (evaluated exactly once, read or not), values that print alike (1 / \"1\" / 1.0, nil / \"<nil>\", [1,2] / \"[1 2]\", true / \"true\", \"a b\",\"c\" / \"a\",\"b c\") passed to one function in one render, a caller variable rebound between two identical calls, functions and function-valued parameters named like built-in helpers (len raw capitalize partial debug) and like the Go helper of the check, arrays / hashes / floats / functions through parameters and returns, function literals as arguments, results as array elements, hash values, indexes, for-iterables, else-if conditions, operands of ! && || < * - ~=, assigned with =, as silent statements inside if / for blocks and inside other bodies. " +
+	"(E3) programs whose called expression is not a name (13 by hand + 768 from a matrix): the result of a call, a function literal, an element of a hash or an array x 8 keys (strings with and without dots, float, int, variable) x 3 suffixes x 4 arguments x {emitted, applied to its own result and compared}; expectation argument + suffix. " +
+	"(R) generated functions of 0-4 parameters (families int/string/bool) whose bodies are if/else-if/else decision chains over the parameters nested to depth 3, every path ending in return <unique label>, with dead code after returns and local lets; argument tuples from literals (incl. nil), plain variables, caller variables NAMED LIKE THE FUNCTION'S OWN PARAMETERS, and calls of the SAME function in any argument position; 12 use sites (emit, let-then-emit, ==, if test, +, string concat, argument of a user function / Go helper, inside if / for blocks with text after, higher-order through a parameter). " +
+	"(R2) call SEQUENCES in one render: 2-3 functions of one signature and 2-5 calls, each direct, through a higher-order function handed any of them, through a parameter NAMED LIKE an already-called function or like a built-in helper, through two function parameters in one body, or through an alias rebound with let / = between calls, so that one called name resolves to different functions at different moments. " +
+	"(R3) 1-3 functions defined in turn (a later one may call an earlier one as a statement, in a let, in a condition) with richer CLOSED bodies: lets that are read, parameters shadowed by let or assigned, parameters named id / len / raw / tmp / res / it, conditional lets read where an unknown name is tolerated, tick counters, silent and emitting ifs, chains nested 4..12 blocks deep, returns of labels, variables (possibly nil), nil, false / \"\" / 0, arrays, label + parameter, dead code that would fail or count; 1-4 calls from a caller that may own variables named like the bodies' lets, arguments that are composite expressions over namesakes, unknown identifiers (the render must fail) or the loop variable, 20 use sites incl. else-if, !, && ||, array / hash element, = assignment, call == call, silent statement at top level / in if / in for, the same call before and after a caller variable is rebound; afterwards a b c d are emitted, every name a body let-bound is tested for leaking, and the tick totals are emitted. " +
+	"(R4) generated recursion: rec(p1..pk, n) and optionally a second function calling it back; below n = 0 the body keeps a parameter in a let, calls itself with permuted / joined / literal arguments, rebinds a parameter, and returns expressions that read parameters, the let and the inner result after the inner call, self calls in tail position, in operands, two per return; called to depth 0-4 with namesake arguments. " +
+	"(E4) 37 programs selecting a field or a method directly from the result of a call of a template function (f(x).Name, .Hello(), .Kid.Name; emitted, compared, tested, let-bound), the value being a Go struct of the data; controls with the value held in a variable first. " +
+	"Oracle: reference interpreter (arguments evaluated once in the caller's scope, parameters bound to argument values, fresh scope, first return reached, nothing after it evaluated); for E3 and E4 the expectation is written down by hand. Non-trivial: every generated program (distinct by template text)."
 
 func setup(t *testing.T) *vk.Run {
 	r := vk.Start(t, "C16", rule,
-		"function bodies are closed (they mention only their parameters and their own lets), so lexical and dynamic scoping agree",
-		"for loops inside function bodies and calls with a wrong number of arguments are not covered by the statement")
+		"function bodies are closed (they mention only their parameters, their own lets, Go helpers and functions defined at the top level that no scope in between rebinds), so lexical and dynamic scoping agree",
+		"a parameter bound to nil reads as an unset name (C10) and hides the caller's variable of that name",
+		"for loops inside function bodies, calls with a wrong number of arguments and the value of a call that reaches no return are not covered by the statement",
+		"the statement sets no bound on recursion; depths up to 900 are demanded (plush documents 1000 nested calls)")
 	r.Replayer("fn", func(raw json.RawMessage) *vk.Fail {
 		var c Case
 		if f := vk.Decode(raw, &c); f != nil {
@@ -500,7 +1553,14 @@ func setup(t *testing.T) *vk.Run {
 		if err != nil {
 			return &vk.Fail{Kind: "decode", Msg: err.Error()}
 		}
-		return run(r, prog, c.Compact, "replay")
+		return runMany(r, prog, c.Compact, c.Many, "replay")
+	})
+	r.Replayer("lit", func(raw json.RawMessage) *vk.Fail {
+		var c LitCase
+		if f := vk.Decode(raw, &c); f != nil {
+			return f
+		}
+		return runLit(r, c, "replay")
 	})
 	return r
 }
@@ -519,9 +1579,74 @@ func TestProp(t *testing.T) {
 	}
 	r.Subspace("fixed programs x 2 layouts", int64(2*len(fx)), true)
 
+	fx2 := fixed2(r.Thorough())
+	for i, p := range fx2 {
+		if !r.Mine(int64(i)) {
+			continue
+		}
+		r.Check(runMany(r, p.prog, false, p.many, "fixed:"+p.name))
+		r.Check(runMany(r, p.prog, true, p.many, "fixed:"+p.name+"/compact"))
+	}
+	r.Subspace("boundary and state programs x 2 layouts", int64(2*len(fx2)), true)
+	lits := litCases()
+	for _, c := range lits {
+		r.Check(runLit(r, c, "fixed:called-expression"))
+	}
+	r.Subspace("programs whose called expression is not a name", int64(len(lits)), true)
+	ce := calledExprCases()
+	for i, c := range ce {
+		if !r.Mine(int64(i)) {
+			continue
+		}
+		if c.class == dotClass && r.OpenClass(dotClass) {
+			r.Exclude(dotClass)
+			continue
+		}
+		f := runLit(r, c.LitCase, "fixed:"+c.class)
+		if f != nil {
+			f.Class = c.class
+		}
+		r.Check(f)
+	}
+	r.Subspace("called expressions (call result, function literal, hash / array element) x 8 keys x 3 suffixes x 4 arguments x 2 uses", int64(len(ce)), true)
+	mc := memberCases()
+	for _, c := range mc {
+		if c.class == memberClass && r.OpenClass(memberClass) {
+			r.Exclude(memberClass)
+			continue
+		}
+		f := runLit(r, c.LitCase, "fixed:"+c.class)
+		if f != nil {
+			f.Class = c.class
+		}
+		r.Check(f)
+	}
+	r.Subspace("a member selected from the result of a call (6 calls x 5 uses + controls)", int64(len(mc)), true)
+
 	r.Rapid("functions", r.Pick(8000, 100000), func(t *rapid.T) *vk.Fail {
 		g := &fnGen{t: t}
 		prog, class := g.program()
+		compact := rapid.Bool().Draw(t, "compact")
+		if compact {
+			class += "/compact"
+		}
+		return run(r, prog, compact, class)
+	})
+	r.Rapid("bodies", r.Pick(5000, 32000), func(t *rapid.T) *vk.Fail {
+		g := &richGen{t: t}
+		prog, classes := g.program()
+		compact := rapid.Bool().Draw(t, "compact")
+		for _, c := range classes {
+			r.Class("bodies:" + c)
+		}
+		class := "bodies"
+		if compact {
+			class += "/compact"
+		}
+		return run(r, prog, compact, class)
+	})
+	r.Rapid("recursion", r.Pick(2000, 10000), func(t *rapid.T) *vk.Fail {
+		prog, class := recProgram(t)
 		compact := rapid.Bool().Draw(t, "compact")
 		if compact {
 			class += "/compact"
